@@ -39,6 +39,9 @@ Definition drop_tid (t : tid) (l : list (tid * N * bool)) : list (tid * N * bool
   filter (fun e => negb (Nat.eqb (ent_tid e) t)) l.
 Definition live_mem (k : N) (l : list N) : bool := existsb (N.eqb k) l.
 
+(* what the caller sees as a plain error: the index update failed, or its response was lost *)
+Definition plain_err (r : result) : bool := match r with RErr | RLost => true | _ => false end.
+
 Definition lstep (sg : bool) (m : lstate) (e : levent) : option lstate :=
   match e with
   | LPut t d =>
@@ -75,7 +78,7 @@ Definition lstep (sg : bool) (m : lstate) (e : levent) : option lstate :=
       match pcs (l_s m) t with
       | Done r =>
           let k := ckey (arg (l_s m) t) in
-          if has_entry t k false (l_inflight m) && negb (match r with RErr => true | _ => false end) then
+          if has_entry t k false (l_inflight m) && negb (plain_err r) then
             Some (mkL (l_s m) (filter (fun x => negb (x =? k)) (l_live m)) (drop_tid t (l_inflight m)) (l_taint m))
           else None
       | _ => None
@@ -127,7 +130,7 @@ Fixpoint lsettle_pass (sg : bool) (n : nat) (m : lstate) : lstate * bool :=
       | Ret _ => try (LIdx (EDone k))
       | Done r =>
           (* a push is over when updateReferrersIndex returns; so is a delete whose index update failed *)
-          if has_tid k (l_inflight m1) && (is_add (arg (l_s m1) k) || match r with RErr => true | _ => false end)
+          if has_tid k (l_inflight m1) && (is_add (arg (l_s m1) k) || plain_err r)
           then try (LEnd k) else (m1, ch)
       | _ => (m1, ch)
       end
@@ -151,6 +154,7 @@ Definition lvis_step (sg : bool) (changes : list change) (m : lstate) (v : lvis)
         end
     | LV (VP t f) => lrun sg m [LIdx (ERecvMain t); LIdx (EPrepare t f); LIdx (ECommit t)]
     | LV (VU t f) => lstep sg m (LIdx (EPut t f))
+    | LV (VL t) => lstep sg m (LIdx (EPutLost t))
     | LV (VD t f) => lstep sg m (LIdx (EDel t f))
     | LV VX => lstep sg m (LIdx EExtDrop)
     | VM t => lstep sg m (LDel t)
